@@ -570,6 +570,22 @@ fn kf_c06_xlsx_shared_formula_ref_does_not_amplify() {
     assert!(peak < 16 << 20, "a {n} byte xlsx with one shared formula made worksheet_formula allocate {peak} bytes");
 }
 
+#[test]
+fn kf_c06_xlsx_shared_formula_index_does_not_amplify() {
+    // the shared-formula table is a Vec indexed by `si`: a master formula with a large `si` makes next_formula
+    // push one `None` per missing index (`while self.formulas.len() < shared_index { push(None) }`)
+    let sh = sheet(r#"<row r="1"><c r="A1"><f t="shared" ref="A1:A1" si="3000000">B1</f><v>1</v></c></row>"#);
+    let bytes = minimal_xlsx(&sh, &[]);
+    let n = bytes.len();
+    reset_peak();
+    let _ = std::panic::catch_unwind(|| {
+        let mut wb: Xlsx<_> = Xlsx::new(Cursor::new(bytes)).unwrap();
+        wb.worksheet_formula("Sheet1").map(|r| r.get_size())
+    });
+    let peak = peak_since_reset();
+    assert!(peak < 16 << 20, "a {n} byte xlsx with one shared formula (si = 3000000) made worksheet_formula allocate {peak} bytes");
+}
+
 // R-ARITH / R-INDEX xlsx
 
 #[test]
@@ -822,6 +838,40 @@ fn kf_c06_vba_dir_stream_truncated() {
         no_panic(&format!("vba dir stream cut at {cut} of {} bytes", dir.len()), move || {
             let _ = calamine::vba::VbaProject::new(&mut Cursor::new(file), n);
         });
+    }
+    finish();
+}
+
+#[test]
+fn kf_c06_vba_reference_control_truncated() {
+    // a REFERENCECONTROL record (0x002F) whose tail is missing: `*stream = &stream[4..]` after the 0x0030 token and
+    // `*stream = &stream[26..]` after the second libid are unchecked.  The record is appended where the reference
+    // records of tests/vba.xlsm's dir stream begin (every offset holding a REFERENCENAME id is tried).
+    let dir = include_bytes!("vba_dir.bin");
+    let mut head = vec![0x2Fu8, 0x00];
+    head.extend_from_slice(&[0; 4]); // SizeTwiddled
+    head.extend_from_slice(&0u32.to_le_bytes()); // libid (empty)
+    head.extend_from_slice(&[0; 6]); // reserved
+    head.extend_from_slice(&[0x30, 0x00]); // Reserved3
+    for (what, tail) in [
+        ("cut after the 0x0030 token", vec![0u8; 2]),
+        ("cut inside the GUID / cookie after the extended libid", {
+            let mut t = vec![0u8; 4];
+            t.extend_from_slice(&0u32.to_le_bytes());
+            t.extend_from_slice(&[0; 10]);
+            t
+        }),
+    ] {
+        for cut in (0..dir.len() - 1).filter(|&i| dir[i] == 0x16 && dir[i + 1] == 0x00) {
+            let mut d = dir[..cut].to_vec();
+            d.extend_from_slice(&head);
+            d.extend_from_slice(&tail);
+            let file = cfb_mini("dir", &ovba_compress_literal(&d));
+            let n = file.len();
+            no_panic(&format!("REFERENCECONTROL at {cut}, {what}"), move || {
+                let _ = calamine::vba::VbaProject::new(&mut Cursor::new(file), n);
+            });
+        }
     }
     finish();
 }
